@@ -356,8 +356,15 @@ def run(ctx):
     for label, src_text, spec in source_cases:
         it = Interp.for_file(ctx.src, UTILS, {}, {})
         tl = toks(spec)
+        before = [t_.clone() for t_ in tl]
         try:
             out = it.call_function(tts, [tl], {}, Env())
+            # the tokens are the parser's own objects (the error reporter reads their positions afterwards): rebuilding the text must not change them
+            changed = [b_.attrs.get('value') for t_, b_ in zip(tl, before) if t_ != b_] + (['<list length>'] if len(tl) != len(before) else [])
+            ctx.ob('C16.tokens-untouched', f'tokens_to_string:{label}', not changed,
+                   f'tokens_to_string changes the tokens it is given ({changed[:3]}; e.g. {next((repr(t_) for t_, b_ in zip(tl, before) if t_ != b_), "")[:80]}): they are shared '
+                   f'with the parser and the error reporter, whose echoed lines and caret positions are computed from them', file=UTILS, line=tts.lineno,
+                   witness='create model m from db (select a,\n   b from t) predict y windo 5')
         except Raised as r:
             ctx.ob('C16.text-is-token-values', f'tokens_to_string:{label}', False, f'tokens_to_string raises {r.exc_name} on the token list of `{src_text}`', file=UTILS,
                    line=tts.lineno)
